@@ -37,7 +37,19 @@ def raised_events(resp, gas_limit=30_000_000):
     for ip, gas in mon.get("retire_gas", []):
         if gas > gas_limit:
             ev.add((ip, "GasLimitExceeded"))
+    # and by the monitor's own opcode-level books: a path that went on executing after the instruction at `ip` had taken
+    # its declared minimum cost over the limit was due a gas error located there
+    for ip in mon.get("oog_expected", []):
+        ev.add((ip, "GasLimitExceeded"))
     return ev
+
+
+def gas_overrun(resp, gas_limit):
+    """By the monitor's own opcode-level books (declared minimum cost of every executed instruction, summed per path
+    and inherited at forks): did some path execute an instruction after consuming more than the limit? Then a
+    GasLimitExceeded was due, wherever exactly the VM would have located it."""
+    mon = resp["mon"]
+    return mon.get("max_opgas_before", 0) > gas_limit, mon.get("max_opgas_before", 0), mon.get("max_opgas_at")
 
 
 def returned(resp):
@@ -82,6 +94,17 @@ def judge(res, code, feats, cfg, strict, perm):
         res.violation("c17:strict:raised-not-listed:%s:%s" % (missing[0][1], src),
                       "strict mode: raised %s but returned %s (class %s)" % (missing[:5], sorted(ret_s)[:8], strict.get("class")),
                       case)
+        return
+    over, used, at = gas_overrun(strict, gl)
+    if over and not any(k == "GasLimitExceeded" for _, k in ret_s):
+        res.violation("c17:strict:raised-not-listed:GasLimitExceeded:opcode-accounting",
+                      "a path had consumed %d gas (declared minimum costs, limit %d) when it executed the instruction at %s, "
+                      "yet no GasLimitExceeded is listed (returned %s, class %s)" % (used, gl, at, sorted(ret_s)[:6], strict.get("class")), case)
+        return
+    over_p, used_p, at_p = gas_overrun(perm, gl)
+    if over_p and not any(k == "GasLimitExceeded" for _, k in ret_p):
+        res.violation("c17:permissive:non-jump-error-swallowed:GasLimitExceeded:opcode-accounting",
+                      "permissive mode: a path had consumed %d gas (limit %d) at %s, yet no GasLimitExceeded is listed" % (used_p, gl, at_p), case)
         return
     bad_loc = [e for e in errs_s if e["location"] >= n]
     if bad_loc:
